@@ -1,141 +1,5 @@
-(* Correspondence checks: decode a case written by the Go harness, run the
-   model on the recorded inputs, compare with the recorded behaviour of the
-   implementation, and evaluate the property specifications on the recorded
-   behaviour (the oracle that turns a disagreement into a violation replay). *)
-From Smtp Require Import Bytes Sx Transport DataReader DotSpec.
-
-
-Record verdict := mkV {
-  v_ok : bool;              (* the case could be decoded *)
-  v_agree : bool;           (* model behaviour = recorded implementation behaviour *)
-  v_model : sx;             (* what the model computed *)
-  v_viol : list bytes;      (* properties the recorded behaviour violates *)
-  v_kf : list bytes;        (* known-finding signatures the case matches *)
-  v_tags : list bytes       (* coverage tags *)
-}.
-
-Definition bad_case : verdict := mkV false false (SL []) [] [] [].
-
-(* ---- decoding of shared pieces ---- *)
-
-Definition dec_terr (x : sx) : option terr :=
-  if sx_is "eof" x then Some TEof
-  else if sx_is "toolong" x then Some TTooLong
-  else if sx_is "timeout" x then Some TTimeout
-  else if sx_is "err" x then Some TNetErr
-  else if sx_is "closed" x then Some TClosed
-  else None.
-
-Definition dec_raw (x : sx) : option raw :=
-  match x with
-  | SL [tag; d] =>
-      if sx_is "d" tag then
-        match sx_bytes d with
-        | Some (c :: r) => Some (RData c r)
-        | _ => None
-        end
-      else None
-  | SL [tag] => option_map RFail (dec_terr tag)
-  | _ => None
-  end.
-
-Definition dec_raws (x : sx) : option (list raw) :=
-  match x with SL l => map_opt dec_raw l | _ => None end.
-
-Definition show_terr (e : terr) : string :=
-  match e with
-  | TEof => "eof" | TTooLong => "toolong" | TTimeout => "timeout"
-  | TNetErr => "err" | TClosed => "closed"
-  end.
-
-Definition show_rerr (e : option rerr) : sx :=
-  match e with
-  | None => XT "nil"
-  | Some REOF => XT "eof"
-  | Some RUnexpectedEOF => XT "ueof"
-  | Some RTooLarge => XT "toolarge"
-  | Some (RTransport e) => XT (show_terr e)
-  | Some RDataReset => XT "datareset"
-  | Some RClosedPipe => XT "closedpipe"
-  end.
-
-(* read everything that is left on the transport, io.ReadAll style *)
-Definition t_read_rest (t : transport) : bytes * option terr :=
-  let '(b, e, _) := t_copy_n (2 ^ 62)%N t in (b, e).
-
-Definition show_topt (e : option terr) : sx :=
-  match e with None => XT "nil" | Some e => XT (show_terr e) end.
-
-(* ---- kind "dr": the DATA reader in isolation ----
-   (dr (linelimit n) (max n) (raws ...) (sizes ...) (stop none|n) 
-       (obs (out x) (err e) (drain e) (rest x) (resterr e))) *)
-
-Definition assoc (k : string) (l : list sx) : option (list sx) :=
-  (fix go (l : list sx) :=
-     match l with
-     | SL (t :: args) :: r => if sx_is k t then Some args else go r
-     | _ :: r => go r
-     | [] => None
-     end) l.
-
-Definition assoc1 (k : string) (l : list sx) : option sx :=
-  match assoc k l with Some [x] => Some x | _ => None end.
-
-Definition dr_obs (out : bytes) (e : option rerr) (de : option rerr)
-                  (rest : bytes) (re : option terr) : sx :=
-  SL [XT "obs"; SL [XT "out"; XB out]; SL [XT "err"; show_rerr e];
-      SL [XT "drain"; show_rerr de]; SL [XT "rest"; XB rest];
-      SL [XT "resterr"; show_topt re]].
-
-Definition check_dr (args : list sx) : verdict :=
-  match assoc1 "linelimit" args, assoc1 "max" args, assoc1 "raws" args,
-        assoc1 "sizes" args, assoc1 "stop" args, assoc "obs" args with
-  | Some ll, Some mx, Some rs, Some SZ, Some st, Some obs =>
-      match sx_N ll, sx_Z mx, dec_raws rs, sx_list SZ with
-      | Some ll, Some mx, Some rs, Some szl =>
-          match map_opt sx_nat szl with
-          | Some sizes =>
-              let stop := if sx_is "none" st then None else sx_N st in
-              let t0 := mkT [] rs 0%N ll false in
-              let '(out, e, d1, t1) := backend_reads sizes stop (new_data_reader mx) t0 in
-              let '(de, d2, t2) := dr_drain d1 t1 in
-              let '(rest, re) := t_read_rest t2 in
-              let model := dr_obs out e de rest re in
-              let agree := sx_eqb model (SL (XT "obs" :: obs)) in
-              (* oracle: the property specs evaluated on the recorded behaviour *)
-              let transparent := lim_ok ll 0%N rs in
-              let stream := raws_bytes rs in
-              let o_out := match assoc1 "out" obs with Some x => sx_bytes x | None => None end in
-              let o_err := assoc1 "err" obs in
-              let o_rest := match assoc1 "rest" obs with Some x => sx_bytes x | None => None end in
-              let is_e (tag : string) := match o_err with Some x => sx_is tag x | None => false end in
-              let viol :=
-                if negb transparent then []
-                else match unstuff stream, o_out, o_rest, stop with
-                     | Complete body rest, Some oo, Some orr, None =>
-                         if (mx <=? 0)%Z || (Z.of_nat (List.length body) <=? mx)%Z then
-                           (if bytes_eqb oo body && is_e "eof"%string then [] else [bs "C01"; bs "C06"])
-                           ++ (if bytes_eqb orr rest then [] else [bs "C02"])
-                         else
-                           (if bytes_eqb oo (firstn (Z.to_nat mx) body) && is_e "toolarge"%string
-                            then [] else [bs "C06"])
-                           ++ (if bytes_eqb orr rest then [] else [bs "C02"])
-                     | Incomplete body, Some oo, _, _ =>
-                         (if is_e "eof"%string then [bs "C07"] else [])
-                         ++ (if (mx <=? 0)%Z && negb (is_prefix oo body) then [bs "C01"] else [])
-                     | _, _, _, _ => []
-                     end in
-              let tags :=
-                [match unstuff stream with Complete _ _ => bs "complete" | Incomplete _ => bs "incomplete" end;
-                 if transparent then bs "transparent" else bs "limiter-trips";
-                 if (0 <? mx)%Z then bs "limited" else bs "unlimited"] in
-              mkV true agree model viol [] tags
-          | None => bad_case
-          end
-      | _, _, _, _ => bad_case
-      end
-  | _, _, _, _, _, _ => bad_case
-  end.
+(* dispatcher of the correspondence checks *)
+From Smtp Require Import Bytes Sx CheckBase CheckDr CheckConv.
 
 (* ---- dispatcher ---- *)
 
@@ -143,6 +7,7 @@ Definition check_sx (x : sx) : verdict :=
   match x with
   | SL (k :: args) =>
       if sx_is "dr" k then check_dr args
+      else if sx_is "conv" k then check_conv args
       else bad_case
   | _ => bad_case
   end.
